@@ -1,6 +1,7 @@
 package main
 
 import (
+	"encoding/json"
 	"fmt"
 	"os"
 	"path/filepath"
@@ -146,6 +147,14 @@ func randOCI(r *hx.R, hosts []hostNode, many bool) *oci.Spec {
 			if r.Chance(0.7) {
 				ma, mi := int64(9), int64(0)
 				s.Linux.Resources.Devices = []oci.LinuxDeviceCgroup{{Allow: false, Access: "rwm"}, {Allow: true, Type: "c", Major: &ma, Minor: &mi, Access: "r"}}
+				if r.Chance(0.5) {
+					// wildcard rules as container engines write them: no major, or a major and no minor
+					m1 := int64(1 + r.Intn(200))
+					s.Linux.Resources.Devices = append(s.Linux.Resources.Devices,
+						oci.LinuxDeviceCgroup{Allow: true, Type: "c", Access: "m"},
+						oci.LinuxDeviceCgroup{Allow: true, Type: "b", Major: &m1, Access: "rwm"},
+						oci.LinuxDeviceCgroup{Allow: true, Type: "c", Major: &m1, Access: "rw"})
+				}
 			}
 		}
 		if r.Chance(0.3) {
@@ -289,6 +298,31 @@ func c03Cases(s *hx.Suite, hosts []hostNode, init *oci.Spec, e *specs.ContainerE
 	}
 }
 
+// c03Again applies the SAME edits value a second time, to a fresh copy of the initial spec, after the host nodes have been
+// re-created with other attributes: the result must be the one of the edits as they were given (printed before the first
+// application) under the new host nodes — nothing of the first application may stick to the edits.
+func c03Again(s *hx.Suite, hosts1, hosts2 []hostNode, init *oci.Spec, e *specs.ContainerEdits, origTerm string, eJSON interface{}) {
+	before := deepCopyOCI(init)
+	work := deepCopyOCI(init)
+	var err error
+	p, _ := hx.Guard(func() { err = (&cdi.ContainerEdits{ContainerEdits: e}).Apply(work) })
+	outcome := 0
+	if p {
+		outcome = 2
+	} else if err != nil {
+		outcome = 1
+	}
+	mode := 0
+	if envClassKnown(before, e) {
+		mode = 1
+	}
+	s.Add(hx.Case{
+		Term: hx.C("C03", hx.Nat(mode), hostTerm(hosts2), origTerm, ociTerm(before), ociTerm(work), hx.Nat(outcome)),
+		Desc: map[string]interface{}{"entry": "ContainerEdits.Apply, second application of the same edits after the host nodes were re-created", "edits": eJSON,
+			"initial": ociJSON(before), "result": ociJSON(work), "outcome": []string{"ok", "error", "PANIC"}[outcome], "host_nodes_first": hosts1, "host_nodes": hosts2},
+		Nontrivial: true, Class: "apply-twice"})
+}
+
 func genC03(r *hx.R, tier string, scratch string) (*hx.Suite, error) {
 	s := &hx.Suite{
 		Property: "C03",
@@ -328,7 +362,14 @@ func genC03(r *hx.R, tier string, scratch string) (*hx.Suite, error) {
 		many := r.Chance(0.15)
 		init := randOCI(r, hosts, many)
 		e := randEdits(r, hosts, devDir, many)
+		origTerm := editsTerm(e)
+		eJSON, _ := json.Marshal(e)
 		c03Cases(s, hosts, init, e, r.Intn(3), "random")
+		if i%5 == 0 && mknodOK {
+			old := hosts
+			hosts = remakeHostNodes(r, hosts)
+			c03Again(s, old, hosts, init, e, origTerm, json.RawMessage(eJSON))
+		}
 	}
 	return s, nil
 }
